@@ -454,7 +454,11 @@ def run(REG, tier, seed, jobs):
              (('conf-global', 'static'), ('conf-sub', 'both'), ('unset-sub',), ('reconf',)),
              (('reconf-D', 'level', 'three'), ('edit', 'level-default'), ('wipe',)),
              (('conf-subopt', 'mine'), ('unset-subopt',), ('conf', 'level', 'two')), (('conf-subopt', 'one'), ('conf', 'level', 'two'), ('wipe',)),
-             (('conf-subopt', 'mine'), ('reconf',), ('unset-subopt',), ('reconf',))]
+             (('conf-subopt', 'mine'), ('reconf',), ('unset-subopt',), ('reconf',)),
+             # an option the user has given a value is REMOVED from the option file: it vanishes, and the build directory goes on working
+             (('edit', 'add-extra'), ('reconf',), ('conf', 'extra', 'y'), ('edit', 'remove-extra'), ('reconf',), ('reconf',)),
+             (('edit', 'add-extra'), ('reconf',), ('conf', 'extra', 'y'), ('edit', 'remove-extra'), ('reconf',), ('wipe',)),
+             (('edit', 'add-extra'), ('reconf',), ('conf', 'extra', 'y'), ('edit', 'remove-extra'), ('conf', 'level', 'two'), ('wipe',))]
     ev, nt, fails = pmap(_life_chunk, chunked(iter(seqs), 8), jobs)
     rev_, rnt, rfails = pmap(_retype_chunk, chunked(iter(RETYPE), 1), jobs)
     rpart = {'name': 'C08/bounded/retyped-or-deleted-option-file', 'function': 'meson setup; option-file edit; setup --reconfigure twice; configure -D (in process, --backend=none)',
